@@ -676,7 +676,9 @@ def nd_getattr(I, st, ref, name):
     elif name == "dtype":
         yield st, DtypeVal(dtype_of(e))
     elif name == "flat":
-        yield st, st.alloc(ListE(list(e.data)))  # iterator over the elements in row-major order
+        from .values import IterE
+
+        yield st, st.alloc(IterE(list(e.data)))  # a fresh one-shot iterator over the elements in row-major order
     else:
         raise Unsupported("ndarray attribute " + name)
 
